@@ -454,6 +454,9 @@ class Run:  # pylint: disable=too-many-instance-attributes
                     chosen = hit[0]
                     deviated = True
                     tags = {c[1] + (f">{self.attrs[c[2] - 1]}" if c[2] else "") for c in hit}
+                    if "ForgetsPersist" in tags and self.values[s][t] is None and t < 3:
+                        # the old value stays in the file when None is assigned (write_attributes skips None)
+                        tags = {"NoneNotPersisted"}
                     self.stats["dev_steps"] += 1
                     if s in pending and not pending[s] & tags:
                         # two different mechanisms on the same attribute in one behaviour: report the first now
